@@ -1,4 +1,4 @@
-//@ verus props=C13 tier=quick kind=X spec=conn_ids.rs timeout=300
+//@ verus props=C13,C14 tier=quick kind=X spec=conn_ids.rs timeout=300
 // Layer X for C13 on the REAL TEXT of quic/s2n-quic-transport/src/connection/local_id_registry.rs.
 //
 // LocalIdRegistry walks a SmallVec with iterator adapters (`iter_mut().filter(..)`), which neither CBMC (11 GB on
